@@ -351,6 +351,11 @@ func GenXmlFamily(w *Writer, r *Rng, t Tier) error {
 			top = append(top, XN{Kind: "comment", Val: "prolog"})
 			gap()
 		}
+		if enc != "" && cr.Chance(1, 3) {
+			// a long ASCII prefix: the first byte that needs the declared charset comes late
+			top = append(top, XN{Kind: "comment", Val: strings.Repeat("ascii padding ", 400+cr.Intn(1200))})
+			gap()
+		}
 		if cr.Chance(1, 6) {
 			top = append(top, XN{Kind: "pi", Local: "pi", Val: "p"})
 			gap()
@@ -455,6 +460,9 @@ func GenXmlFamily(w *Writer, r *Rng, t Tier) error {
 		meta := map[string]interface{}{"k": "xml", "fam": fam, "text": string(data), "n": len(toks) / 20}
 		if expect != "" {
 			meta["expect"] = expect
+		} else if xdoc != "-" {
+			// a document that is well-formed by construction: ReadXml must accept it
+			meta["expect"] = "same=1 wf=1 specok=1 tokok=1"
 		}
 		w.Line(line, impl, meta)
 	}
